@@ -76,8 +76,10 @@ CHECKS = {
          "of its signature, every annotation, the re-fixed tree, and every declared subtype constraint of a leaf) for "
          "operators that are constraint-free or carry subtype constraints x <= A / x < A, and C04_elim / C04_elim_full "
          "for operators that also carry elimination constraints over base-type alternatives (a resolved constrained "
-         "variable lies under a declared alternative); compound or variable alternatives per instance (verified checker)",
-         "4 C04", "Coq-verified per-node checker + engine model correspondence through the real parser"),
+         "variable lies under a declared alternative); C04_gen / C04_gen_full / C04_gen_annotations prove node typing, leaf "
+         "instances, annotations and the re-fixed tree for operators with ARBITRARY constraints; only 'the declared "
+         "constraints of a leaf hold' for compound or variable alternatives remains per instance (verified checker)",
+         "4 C04", "Coq proof (every node of every accepted expression, arbitrary operator constraints) + verified per-node checker + engine model correspondence through the real parser"),
  "C15": ("de Bruijn lambda-terms with composite operators: primitive() modelled as unfold + applicative-order "
          "normalisation; result has no composite operator and no redex, equals every normal form reachable by any "
          "reduction order (confluence proved), equals an independent leftmost-outermost evaluator, is idempotent and "
